@@ -104,10 +104,21 @@ package service
 //@   props C18
 //@   requires conn != nil
 
+// aeadMatch(e, fb): the first chunk header in fb authenticates under the key of list element e
+// (uf_aeadOK is the idealised AEAD: Unpack succeeds iff it holds; see sdk.contract).
+//@ pred aeadMatch(e *list.Element, fb []byte) := uf_aeadOK(as(e.Value, "*service.CipherEntry").CryptoKey, fb.$arr, fb.$off, \
+//@    pure("shadowsocks.(*EncryptionKey).SaltSize", as(e.Value, "*service.CipherEntry").CryptoKey) + 2 + pure("shadowsocks.(*EncryptionKey).TagSize", as(e.Value, "*service.CipherEntry").CryptoKey))
+
+// findEntry: trial decryption is sound and complete over the snapshot: nil iff no key of the
+// snapshot authenticates the header; otherwise the first element (in snapshot order) that does.
 //@ func findEntry
 //@   props C01 C18
 //@   requires len(firstBytes) == bytesForKeyFinding && l != nil
 //@   requires forall i int :: 0 <= i && i < len(ciphers) ==> validElem(ciphers[i])
+//@   loop 1 invariant forall j int :: 0 <= j && j <= rangeindex ==> !aeadMatch(ciphers[j], firstBytes)
+//@   ensures[C01,complete] result.0 == nil ==> (forall i int :: 0 <= i && i < len(ciphers) ==> !aeadMatch(ciphers[i], firstBytes))
+//@   ensures[C01,sound] result.0 != nil ==> aeadMatch(result.1, firstBytes) && (exists i int :: 0 <= i && i < len(ciphers) && ciphers[i] == result.1 \
+//@        && (forall j int :: 0 <= j && j < i ==> !aeadMatch(ciphers[j], firstBytes)))
 //@   ensures result.0 != nil ==> validEntry(result.0) && validElem(result.1) && result.0 == as(result.1.Value, "*service.CipherEntry")
 //@   ensures result.0 == nil ==> result.1 == nil
 
@@ -316,7 +327,7 @@ package service
 // valid element (first the entries last used by this client IP, then the others). cntM(k) = number
 // of matching entries among the first k (a definitional assumption, stated after taking the lock).
 //@ func (*cipherList).SnapshotForClientIP
-//@   props C01 C18 C19
+//@   props C01 C03 C18 C19
 //@   atomic
 //@   requires cl != nil
 //@   assume-at-lock uf_cntM_int(cl.list, clientIP, 0) == 0 && (forall k int :: 0 <= k && k < cl.list.n ==> \
@@ -340,10 +351,11 @@ package service
 //@   atomic
 //@   requires cl != nil && validElem(e)
 
+// Update installs a new key list (it takes ownership): every element must hold a valid entry.
 //@ func (*cipherList).Update
-//@   props C18 C19
+//@   props C01 C18 C19
 //@   atomic
-//@   requires cl != nil
+//@   requires cl != nil && keyListOK(src)
 
 // MakeCipherEntry: keys whose salt leaves at least 16 random bytes after the 4-byte mark (salt
 // size >= 20) get the marking generator keyed from this very secret; others the plain random one.
